@@ -120,7 +120,11 @@ func FileUtilsRead(file *os.File, offset int64) (*RecordHead, *RecordBody, error
 	}
 
 	heaBuf := make([]byte, RecordHeadLength)
-	_, err = file.Read(heaBuf)
+	_, err = io.ReadFull(file, heaBuf)
+	if err == io.ErrUnexpectedEOF {
+		// fewer than RecordHeadLength bytes left: a record torn inside its head is the end of the log
+		return nil, nil, io.EOF
+	}
 	if err != nil {
 		return nil, nil, err
 	}
@@ -136,9 +140,18 @@ func FileUtilsRead(file *os.File, offset int64) (*RecordHead, *RecordBody, error
 	}
 
 	bodyBuf := make([]byte, head.Len)
-	_, err = file.Read(bodyBuf)
+	_, err = io.ReadFull(file, bodyBuf)
+	if err == io.ErrUnexpectedEOF {
+		// the body is cut short: never hand a zero-filled buffer to the decoder, this is the end of the log
+		return nil, nil, io.EOF
+	}
 	if err != nil {
 		return nil, nil, err
+	}
+
+	// the checksum written by fileUtilsEncodeHead covers exactly the head.Len body bytes (no padding)
+	if CheckSum(bodyBuf) != head.Crc {
+		return nil, nil, io.EOF
 	}
 
 	var body RecordBody
